@@ -71,13 +71,16 @@ static void qr_solve_case(int m, int n, bool col_major) {
         for (int i=0;i<m;++i) for (int j=0;j<n;++j) A[idx(i,j)] = var("a_"+std::to_string(i)+"_"+std::to_string(j), 1.0+0.5*((i*2+j*3)%5)-(i==j?3.5:0));
         for (int i=0;i<m;++i) b[i]=var("b"+std::to_string(i),0.5+i);
         A0=A; amgcl::detail::QR<scalar> qr; qr.solve(m,n,A.data(),b.data(),x.data(),order);
+        // full rank (stated precondition of the property): all diagonal entries of R non-zero; rank-deficient paths satisfy the obligations vacuously
+        std::vector<hx::F> fr; { int k=std::min(m,n); int rs = m>=n ? (col_major?1:n) : (col_major?m:1), cs = m>=n ? (col_major?m:1) : (col_major?1:n); for (int i=0;i<k;++i) fr.push_back(hx::ne(A[i*(rs+cs)],scalar(0))); }
+        hx::F full_rank=hx::all_of(fr);
         auto a0=[&](int i,int j) { return A0[idx(i,j)]; };
         std::vector<scalar> r(m); for (int i=0;i<m;++i) { scalar s=b[i]; for (int j=0;j<n;++j) s-=a0(i,j)*x[j]; r[i]=s; }
         if (m>=n) { // least squares: A^T (b - A x) = 0   (full rank assumed through the non-zero divisors R_ii)
             std::vector<scalar> g, z; for (int j=0;j<n;++j) { scalar s=0; for (int i=0;i<m;++i) s+=a0(i,j)*r[i]; g.push_back(s); z.push_back(scalar(0)); }
-            hx::prove_eq_vec("QR solve: normal equations A^T(b - A x) = 0", g, z);
+            std::vector<hx::F> fs; for (size_t i=0;i<g.size();++i) fs.push_back(hx::implies(full_rank,hx::eq(g[i],z[i]))); hx::prove_all("QR solve (full rank): normal equations A^T(b - A x) = 0", fs);
         } else {   // minimum norm: A x = b and x in range(A^T): x = A^T y for the y solving (A A^T) y = b  <=> x orthogonal to null(A); checked as A x = b
-            std::vector<scalar> z(m,scalar(0)); hx::prove_eq_vec("QR solve (wide): A x = b", r, z);
+            std::vector<hx::F> fs; for (int i=0;i<m;++i) fs.push_back(hx::implies(full_rank,hx::eq(r[i],scalar(0)))); hx::prove_all("QR solve (wide, full rank): A x = b", fs);
         }
     }, co);
 }
@@ -125,7 +128,7 @@ int main(int argc, char **argv) {
             lu_case(hx::mask_pattern(n,n,mask,true), false, 64); } }
     for (int n=1;n<=(T?3:2);++n) { uint64_t lim=1ull<<(n*n); for (uint64_t mask=0;mask<lim;++mask) { bool offd=true; for (int i=0;i<n;++i) if ((mask>>(i*n+i))&1) offd=false; if (!offd) continue; lu_case(hx::mask_pattern(n,n,mask,true), true, T?600:100); } }
     for (int n=4;n<=(T?7:6);++n) { lu_case(hx::band_pattern(n,1),false,64); lu_case(hx::arrow_pattern(n),false,64); }
-    lu_case(hx::band_pattern(5,2),false,64); lu_case(hx::grid_pattern(2,2),false,64); lu_case(hx::grid_pattern(3,2),false,64);
+    lu_case(hx::band_pattern(5,2),false,64); lu_case(hx::grid_pattern(2,2),false,64); if (T) lu_case(hx::grid_pattern(3,2),false,64);
     for (int k=0;k<(T?20:6);++k) lu_case(hx::random_pattern(4+rng.below(2),4+0*rng.below(2),rng,1,true),false,64);
     for (int n=1;n<=3;++n) inverse_case(n);
     smat_case<1>(); smat_case<2>(); smat_case<3>(); if (T) smat_case<4>();
